@@ -90,6 +90,7 @@ type Check struct {
 	rule        string
 	timedOut    atomic.Bool
 	memChecked  atomic.Int64
+	memOver     atomic.Bool
 }
 
 // ExitCode is read by TestMain of each check package.
@@ -162,16 +163,22 @@ func (c *Check) Expired() bool {
 	}
 	// memory guard: an exploration whose bookkeeping (state caches, frontiers) outgrows the budget
 	// ends like one that ran out of time - exhaustive=false, exit 0 - instead of being OOM-killed
+	// (not sticky: the part that outgrew the budget stops, a later part starts with what the
+	// collector gives back)
 	if last := c.memChecked.Load(); now.UnixNano()-last > int64(time.Second) && c.memChecked.CompareAndSwap(last, now.UnixNano()) {
 		var ms runtime.MemStats
 		runtime.ReadMemStats(&ms)
 		if ms.HeapAlloc > memLimit() {
-			c.timedOut.Store(true)
-			c.Cap(fmt.Sprintf("memory budget reached (heap %d MiB > %d MiB): exploration stopped like at a deadline", ms.HeapAlloc>>20, memLimit()>>20))
-			return true
+			runtime.GC()
+			runtime.ReadMemStats(&ms)
 		}
+		over := ms.HeapAlloc > memLimit()
+		if over && !c.memOver.Load() {
+			c.Cap(fmt.Sprintf("memory budget reached (heap %d MiB > %d MiB): the running part stopped like at a deadline", ms.HeapAlloc>>20, memLimit()>>20))
+		}
+		c.memOver.Store(over)
 	}
-	return false
+	return c.memOver.Load()
 }
 
 func memLimit() uint64 {
